@@ -89,6 +89,37 @@ def solver_objects():
     return rows, acc
 
 
+def rate_arrays():
+    """the rate-coefficient arrays every function that evaluates the right-hand side or the Jacobian declares: back-end, function,
+    array name, declared size, whether it is `static`, its initialiser - read off renderings of a one-reaction network (the
+    heating / cooling arrays sit under `#if` in the text whether or not the network has such processes)"""
+    from naunet.network import Network
+    from naunet.reactions import Reaction
+    from naunet.reactiontype import ReactionType as RT
+    from naunet.species import Species
+    rows = []
+    for backend, (solver, method, device) in (("dense", ("cvode", "dense", "cpu")), ("sparse", ("cvode", "sparse", "cpu")),
+                                              ("cusparse", ("cvode", "cusparse", "gpu")), ("rosenbrock4", ("odeint", "rosenbrock4", "cpu"))):
+        Species.reset()
+        with tempfile.TemporaryDirectory() as d, contextlib.redirect_stdout(io.StringIO()), contextlib.redirect_stderr(io.StringIO()):
+            net = Network([Reaction(["H", "H"], ["H2"], alpha=1e-17, reaction_type=RT.GAS_TWOBODY, idxfromfile=1)])
+            net.to_code(solver=solver, method=method, device=device, path=d)
+            texts = {}
+            for f in sorted((Path(d) / "src").glob("naunet_*.c*")):
+                texts[f.name] = strip_comments(f.read_text())
+        if backend == "rosenbrock4":
+            funcs = [("naunet_ode.cpp", "Fex::operator()"), ("naunet_ode.cpp", "Jac::operator()")]
+        elif backend == "cusparse":
+            funcs = [(n, fn) for n in texts for fn in ("FexKernel", "JacKernel") if fn in texts[n]]
+        else:
+            funcs = [("naunet_fex.cpp", "Fex"), ("naunet_jac.cpp", "Jac")]
+        for fname, fn in funcs:
+            body = body_of(texts.get(fname, ""), fn)
+            for m in re.finditer(r"(static\s+)?(?:const\s+)?(?:realtype|double)\s+(k|kh|kc)\s*\[\s*(\w+)\s*\]\s*(?:=\s*\{([^}]*)\})?\s*;", body):
+                rows.append((backend, fn, m.group(2), m.group(3), bool(m.group(1)), (m.group(4) or "").strip()))
+    return rows
+
+
 def main():
     import naunet
     from naunet.reactiontype import ReactionType
@@ -177,6 +208,9 @@ def main():
     L.append("def solverObjects : List (String × String × String × String × List String) := " +
              llist(f"({lstr(m)}, {lstr(fn)}, {lstr(fld)}, {lstr(ctor)}, {llist(lstr(a) for a in args)})" for m, fn, fld, ctor, args in so_rows) + "\n")
     L.append("def jacAccessors : List (String × List String) := " + llist(f"({lstr(m)}, {llist(lstr(a) for a in acc)})" for m, acc in so_acc) + "\n")
+    ra = rate_arrays()
+    L.append("def rateArrays : List (String × String × String × String × Bool × String) := " +
+             llist(f"({lstr(b)}, {lstr(fn)}, {lstr(nm)}, {lstr(sz)}, {'true' if st else 'false'}, {lstr(init)})" for b, fn, nm, sz, st, init in ra) + "\n")
     L.append("end Naunet.Tables\n")
     text = "\n".join(L)
     OUT.parent.mkdir(parents=True, exist_ok=True)
